@@ -239,6 +239,34 @@ pub fn minimise(cfg: &Cfg, steps: &[Step], v: &Violation, known: &[String]) -> (
     (cur, cur_v)
 }
 
+/// the same steps with every *injected fault* removed: no identifier panics, no failing sink, no
+/// nested observation, no panicking row iterator. The properties say nothing about callers whose
+/// identifiers, sinks or iterators blow up; a violation is reported only if it survives this.
+pub fn strip_faults(steps: &[Step]) -> Vec<Step> {
+    fn fix(v: &mut serde_json::Value) {
+        match v {
+            serde_json::Value::Object(m) => {
+                if m.len() == 1 && m.contains_key("PanicAfter") {
+                    *v = serde_json::Value::String("Honest".into());
+                    return;
+                }
+                for (k, x) in m.iter_mut() {
+                    if k == "iden_panic_in" || k == "writer_fail_in" || k == "nested" {
+                        *x = serde_json::Value::Null;
+                    } else {
+                        fix(x);
+                    }
+                }
+            }
+            serde_json::Value::Array(a) => a.iter_mut().for_each(fix),
+            _ => {}
+        }
+    }
+    let mut v = serde_json::to_value(steps).expect("steps to json");
+    fix(&mut v);
+    serde_json::from_value(v).expect("steps from json")
+}
+
 #[derive(Default)]
 pub struct BatchOut {
     pub runs: u64,
